@@ -3,7 +3,7 @@
     side conditions of the piece theorems (C01, C12, C13, C16); hence the pool of piece programs of
     a run satisfies the premises of the whole-run invariant of SystemProofs.v. *)
 From TB Require Import Base Decimal BencodeModel BencodeSpec TorrentModel TorrentSpec TorrentProofs LayoutModel LayoutSpec LayoutProofs
-                       PathModel FsModel SolverModel FinderModel RunModel SolverProofs RunProofs FsProofs TableProofs
+                       PathModel FsModel SolverModel FinderModel RunModel SolverProofs RunProofs FsProofs TableProofs PreludeProofs
                        SystemModel SystemProofs Generated GeneratedObligations.
 From Coq Require Import ZifyN ZifyNat ZifyBool.
 Local Open Scope N_scope.
@@ -359,4 +359,35 @@ Proof.
       assert (N2 : nth_error (map f_path fs) k2 = Some (f_path f1)) by (rewrite Htg; now apply map_nth_error).
       apply (proj1 (NoDup_nth_error (map f_path fs)) Hpaths); [apply nth_error_Some; congruence|congruence]. }
     subst k2. assert (f1 = f2) by congruence. subst f2. split; [apply Hcont; cbn [with_searches e_ih e_findex]; congruence|cbn [with_searches e_len]; congruence].
+Qed.
+
+(** ** The whole of [start]: prelude, then scanning
+    The mutating operations of the prelude (whatever the probes answer, whichever operations fail)
+    are [set_len] of export images to their declared lengths, so the invariant - stated relative to
+    the file system as it was BEFORE the run - holds when scanning starts, and from there in every
+    reachable state of the scanning phase. *)
+Lemma populate_entry ix es0 es e0 : populate ix es0 = Ok es -> In e0 es0 -> exists s, In (with_searches e0 s) es.
+Proof.
+  revert es; induction es0 as [|a r IH]; intros es Hp Hin; [contradiction|]. cbn [populate] in Hp.
+  destruct (searches_for ix a) as [s| | |]; cbn [bind] in Hp; try discriminate.
+  destruct (populate ix r) as [rs| | |]; cbn [bind] in Hp; try discriminate. inversion Hp; subst.
+  destruct Hin as [->|Hin]; [exists s; now left|]. destruct (IH rs eq_refl Hin) as [s' Hs']. exists s'. now right.
+Qed.
+
+Theorem whole_start_safe H content export ts ix es ws fi ans mutok scans uexport rz applied pool0 s :
+  run_setup H content export ts ix es ws fi pool0 ->
+  (* [applied]: the prelude's operations that reached the file system, in order *)
+  incl applied (fst (run_prelude ans mutok (prelude_prog scans uexport rz (metadata_table export ts 0) (fun _ => Ret Success)))) ->
+  sreach {| s_fs := apply_ops fi applied; s_pool := pool0 |} s ->
+  SI content es fi (s_fs s) /\ Forall (pgood content es) (s_pool s).
+Proof.
+  intros Hs Hinc Hr. pose proof Hs as (Hts & Hnd & Hpop & Hw & Hc & Hcr & Hf & Ha & Hp).
+  assert (Happ : Forall (entry_setlen es) applied).
+  { apply Forall_forall. intros o Ho. apply Hinc in Ho. apply prelude_ops_shape in Ho; [|reflexivity].
+    destruct Ho as (e0 & Hin0 & Hpad & ->). destruct (populate_entry _ _ _ _ Hpop Hin0) as [sr Hin].
+    exists (with_searches e0 sr). split; [split; [exact Hin|exact Hpad]|reflexivity]. }
+  assert (HS0 : SI content es fi (apply_ops fi applied)).
+  { apply (SI_apply_setlens content es fi applied Happ). now apply SI_init. }
+  apply (sys_invariant content es fi Hf _ _ Hr HS0).
+  exact (work_pool_good export ts ix es Hts Hnd Hpop content Hc H ws pool0 Hw Hcr Hp).
 Qed.
